@@ -76,7 +76,8 @@ func init() {
 			"time.Unix(0, t.UnixNano()) == t for every non-zero time of the program (wall clock, years 1678-2262); Duration.String/ParseDuration and hex.EncodeToString/DecodeString are inverse (contracts/deps.spec)",
 		},
 		NotCovered: []string{
-			"set-valued session fields Channels and invitedTo, the channel table (names, topics, members and their status, modes, keys, bans) and nickname holds (svsholds): Marshal/Unmarshal code for them is executed symbolically (its loops carry the other invariants) but no relation is stated for them yet",
+			"the channel table (names, topics, members and their status, modes, keys, bans) and nickname holds (svsholds): Marshal/Unmarshal code for them is executed symbolically (its loops carry the other invariants) but no relation is stated for them",
+			"set-valued session fields Channels and invitedTo: proved for Unmarshal (the loaded sets are exactly the lowered names listed in the wire form); the matching obligation for Marshal (every key listed once) ran into a quantifier-instantiation loop in all three solvers and is not claimed",
 			"'from then on produces the same output for every continuation' is the consequence of state equality plus determinism (C01); it is not a separate obligation",
 			"serverSessions of a live server may also hold ids of services links that have ended (it is never pruned); the restored list holds exactly the live ones; they differ only in ids that address no live session",
 		},
@@ -87,6 +88,7 @@ func init() {
 			{"ircserver.IRCServer.Marshal", g("sess")}, {"ircserver.IRCServer.Marshal", g("config")},
 			{"ircserver.IRCServer.Unmarshal", g("sessin", "sessrepr")}, {"ircserver.IRCServer.Unmarshal", g("sessin", "nicks")},
 			{"ircserver.IRCServer.Unmarshal", g("sessin", "services")}, {"ircserver.IRCServer.Unmarshal", g("sessin", "modes")},
+			{"ircserver.IRCServer.Unmarshal", g("sessin", "chans")},
 			{"ircserver.IRCServer.Unmarshal", g("config")},
 		}
 		return nil
@@ -96,8 +98,8 @@ func init() {
 		return fieldCoverage(e, []fieldRule{
 			{pkg: "ircserver", typ: "Session", param: "s", preds: []string{"sessRepr", "modesRepr"}, excluded: map[string]string{
 				"deleted":   "false in every state a snapshot is taken in (wfAlive holds between entries)",
-				"Channels":  "NOT COVERED: set-valued, no relation stated yet",
-				"invitedTo": "NOT COVERED: set-valued, no relation stated yet",
+				"Channels":  "HALF COVERED: the reader side (Unmarshal builds exactly the set of lowered names, chansRepr) is proved; the writer side (Marshal lists every key exactly once) is not discharged",
+				"invitedTo": "HALF COVERED: as Channels",
 			}},
 			{pkg: "config", typ: "Network", param: "c", preds: []string{"cfgRepr"}, excluded: map[string]string{}},
 			{pkg: "ircserver", typ: "IRCServer", param: "i", preds: []string{"sessEntryOK", "wfNicksLoaded"}, excluded: map[string]string{
